@@ -310,6 +310,30 @@ class Case:
                     finally:
                         model.forward = orig_fw
                     after = common.grad_enabled()
+                # what test() returns: the labels of every batch in loader order, and the model's eval-mode predictions for them
+                tl = val_loader if val_loader is not None else train_loader
+                Xs, ys = (Xv, yv) if val_loader is not None else (Xt, yt)
+                nbt_ = len(ys) // bs
+                model.eval()
+                with synapgrad.no_grad():
+                    want_pred = [model(Tn(Xs[i * bs:(i + 1) * bs])).squeeze(dim=1) for i in range(nbt_)]
+                model.train()
+                flat_true = [ys[i] for i in range(nbt_ * bs)]
+                out.fact("test returns one label and one prediction per sample", len(y_true) == nbt_ * bs and len(y_pred) == nbt_ * bs,
+                         "%d labels, %d predictions for %d samples" % (len(y_true), len(y_pred), nbt_ * bs))
+                if len(y_true) == nbt_ * bs and len(y_pred) == nbt_ * bs:
+                    def flat(v):
+                        return [x for x in (E.flat_nodes(v)[0] if env.sym else np.asarray(v, dtype=np.float64).reshape(-1))]
+                    got_t, want_t = flat(y_true), flat(ys[:nbt_ * bs])
+                    out.pair("test returns the labels in loader order", [S(x) for x in got_t] if env.sym else got_t,
+                             [S(x) for x in want_t] if env.sym else want_t)
+                    got_p = flat(y_pred)
+                    want_p = [x for w_ in want_pred for x in flat(w_.data)]
+                    if len(got_p) == len(want_p):
+                        out.pair("test returns the eval-mode predictions in loader order", [S(x) for x in got_p] if env.sym else got_p,
+                                 [S(x) for x in want_p] if env.sym else want_p)
+                    else:
+                        out.fact("test returns one prediction row per sample", False, "%d values for %d expected" % (len(got_p), len(want_p)))
                 out.fact("test runs in eval mode with gradient tracking disabled", bool(seen) and all((not any(a)) and (not g) for a, g in seen))
                 out.fact("test leaves the global gradient mode as it found it (entry mode %s)" % entry, after == entry,
                          "mode after test: %s" % after)
